@@ -13,3 +13,7 @@ Proof. vm_compute. reflexivity. Qed.
 
 Theorem lattice_rows_match_model : forallb (forallb (prow_ok g_limtab)) g_rows = true.
 Proof. vm_compute. reflexivity. Qed.
+
+Theorem primitives_match_model :
+  forallb (forallb pthr_ok) g_thr && forallb plock_ok g_locks = true.
+Proof. vm_compute. reflexivity. Qed.
